@@ -11,7 +11,7 @@ PROGRAMS = {
     "thorough": [["U1", "P"], ["U0", "P"], ["P", "U1", "P"], ["P", "U0", "P"], ["U1", "U0", "P"], ["U0", "U1", "P"], ["U1", "U1", "P"], ["U0", "U0", "P"], ["S1"], ["S0"], ["S1", "P"], ["U1", "S0"], ["UP1"], ["UP0"],
                  ["U1", "UP1"], ["U0", "UP0"], ["UP1", "P"], ["UP0", "P"], ["UP1", "U1", "P"]],
 }
-KINDS = ["naive-last", "naive-mean-wlnone", "naive-mean-wl2", "member", "ensemble", "pipeline"]
+KINDS = ["naive-last", "naive-mean-wlnone", "naive-mean-wl2", "member", "member-selffh", "ensemble", "pipeline"]
 
 
 def is_nan(x):
@@ -51,6 +51,8 @@ class C10(Harness):
             for prog in PROGRAMS[tier]:
                 if k in ("member", "ensemble", "pipeline") and any(o.startswith("UP") for o in prog):
                     continue  # update_predict of composites: twin comparison needs window forecasters
+                if k == "member-selffh" and not any(o.startswith("UP") for o in prog):
+                    continue  # (same as "member" there)
                 out.append({"name": "%s-%s" % (k, "".join(prog)), "kind": k, "prog": prog, "cost": len(prog)})
         return out
 
@@ -66,6 +68,8 @@ class C10(Harness):
         increasing(ctx, hs, lo=1)
         ctx.assume(hs[-1] <= 2)
         inp["fh"] = [int(h) for h in hs]
+        # update_predict may be asked for other steps than the horizon known so far (fit / earlier predict)
+        inp["fh_up"] = [h + 1 for h in inp["fh"]] if inp["fh_in_fit"] else list(inp["fh"])
         ov = ctx.fresh_int("ov")
         ctx.assume((ov >= 0) & (ov <= 1))
         inp["ov"] = int(ov)
@@ -75,7 +79,7 @@ class C10(Harness):
                 continue
             m = ctx.fresh_int("m%d" % i)
             if op.startswith("UP"):
-                ctx.assume((m >= inp["fh"][-1] + 1) & (m <= 3))
+                ctx.assume((m >= inp["fh_up"][-1] + 1) & (m <= inp["fh_up"][-1] + 2))
             else:
                 ctx.assume((m >= 1) & (m <= 2))
             m = int(m)
@@ -96,6 +100,14 @@ class C10(Harness):
         Member = make_member(W, log)
         if kind == "member":
             return Member(p=1)
+        if kind == "member-selffh":
+            class SelfFh(Member):
+                """like the trend / stacking forecasters: _predict reads the stored horizon instead of its argument"""
+
+                def _predict(self, fh, X=None, return_pred_int=False, alpha=None):
+                    return Member._predict(self, self.fh, X, return_pred_int, alpha)
+
+            return SelfFh(p=1)
         if kind == "ensemble":
             ENS = W.load("sktime.forecasting.compose._ensemble").EnsembleForecaster
             return ENS([("a", NF(strategy="last")), ("b", Member(p=2))])
@@ -149,11 +161,12 @@ class C10(Harness):
                         twin.update_predict_single(yb, fh, update_params=up)
                         rec["pred"] = [L(p.index), L(p.values)]
                     else:
-                        cv = sp.SlidingWindowSplitter(fh=fh, window_length=1, step_length=1, start_with_window=False)
+                        fh_up = np.array(inp["fh_up"])
+                        cv = sp.SlidingWindowSplitter(fh=fh_up, window_length=1, step_length=1, start_with_window=False)
                         before = S(f.cutoff)
                         r = f.update_predict(yb, cv, update_params=up)
                         rec["cutoff_before"] = before
-                        if len(inp["fh"]) == 1:
+                        if len(inp["fh_up"]) == 1:
                             rec["up"] = {"kind": "series", "idx": L(r.index), "vals": L(r.values)}
                         else:
                             rec["up"] = {"kind": "frame", "cols": [S(c) for c in r.columns], "idx": L(r.index), "vals": [L(r.iloc[:, j].values) for j in range(r.shape[1])]}
@@ -163,7 +176,7 @@ class C10(Harness):
                         for win, _ in cv.split(yb):
                             yw = yb.iloc[win]
                             twin.update(yw, update_params=up)
-                            q = twin.predict(fh)
+                            q = twin.predict(fh_up)
                             ref.append({"cutoff": S(twin.cutoff), "idx": L(q.index), "vals": L(q.values), "win": L(win)})
                         rec["ref"] = ref
                         rec["twin_after"] = snap(twin)
@@ -202,7 +215,7 @@ class C10(Harness):
             if kind == "naive-mean-wlnone":
                 w = [mem[k] for k in offs[-flen:]]
                 return sum(w) / len(w)
-            if kind == "member":
+            if kind in ("member", "member-selffh"):
                 return F(1, c, c + h)
             if kind == "ensemble":
                 return (mem[offs[-1]] + F(2, c, c + h)) / 2
@@ -277,7 +290,8 @@ class C10(Harness):
                         # only the equality with the explicit single steps, the remembered data and the restored cutoff are judged
                         continue
                     P.eq("update_predict-equals-single-steps", r["cutoff"], s0 + co)
-                    for a, v, h in zip(r["idx"], r["vals"], fh):
+                    P.check("update_predict-equals-single-steps", len(r["idx"]) == len(inp["fh_up"]))
+                    for a, v, h in zip(r["idx"], r["vals"], inp["fh_up"]):
                         P.eq("update_predict-equals-single-steps", a, s0 + co + h)
                         P.eq("refit-equals-fresh-fit-on-union" if up else "no-refit-keeps-fitted-params", v, expect(h, co, fl))
                 if up:
